@@ -122,10 +122,10 @@ def plan(ctx):
     comps = C.COMPS
     # (1) boundary matrix: directory sizes (256-entry headers, 8 KiB metadata blocks, 64 KiB listing -> extended inode + index)
     dsz = [0, 1, 2, 255, 256, 257, 258, 511, 512, 513]
-    for n in (rng.sample(dsz, 5) if q else dsz + [1024, 3000]):
+    for n in (rng.sample(dsz, 7) if q else dsz + [1024, 3000]):
         add(C.dir_case(rng, n, opts={"comp": rng.choice(comps), "bs": 4096, "e": rng.random() < 0.5}, ftype=rng.choice(["pipe", "file", "mix"])))
     edge = [(255, 24), (256, 24), (257, 24), (30, 250), (31, 255), (32, 256), (247, 256), (248, 256), (249, 256), (250, 256), (254, 256), (260, 256), (700, 100)]
-    for n, nl in (rng.sample(edge, 4) if q else edge):
+    for n, nl in (rng.sample(edge, 6) if q else edge):
         add(C.dir_case(rng, n, namelen=nl, opts={"comp": rng.choice(comps), "bs": 4096, "e": rng.random() < 0.5}))
     # (2) file sizes around k*B for every B, all compressors; contents
     bss = [4096, 8192, 65536, 131072, 1048576]
@@ -159,15 +159,15 @@ def plan(ctx):
     add(C.hardlink_case(rng, "packfile", rng.choice(comps)))
     # (6) glob
     gv = ["all", "attrs", "types", "name", "path", "nonrec", "mixed"]
-    for v in (rng.sample(gv, 4) if q else gv * 3):
+    for v in (gv if q else gv * 4):
         add(C.glob_case(rng, rng.choice(comps), rng.choice([4096, 16384]), v))
     for v in (["prefix-decoy", "types", "nohardlinks"] if q else ["prefix", "prefix-decoy", "root", "nohardlinks", "types"]):
         add(C.glob_hardlink_case(rng, rng.choice(comps), v))
     # (7) options whose effect on the tree is documented
-    for i in range(9 if q else 48):
+    for i in range(36 if q else 96):
         add(C.options_case(rng, i))
     # (8) seeded random trees in the three input modes
-    nrand = 30 if q else 220
+    nrand = 150 if q else 500
     for i in range(nrand):
         mode = ["packfile", "packdir", "packfile", "packdir", "glob"][i % 5]
         o = C.rnd_opts(rng, mode)
@@ -179,7 +179,7 @@ def plan(ctx):
         elif mode == "packdir":
             body = {"mode": "packdir", "fs": C.mixed_fs(rng, n, o["bs"]), "xa": []}
             if rng.random() < 0.25:
-                body["xa"] = [C.xa_entries(rng, x["p"], C.rnd_xattrs(rng)) for x in body["fs"] if x["t"] not in ("link",) and x["p"] and C.xattr_path_ok(x["p"]) and rng.random() < 0.3]
+                body["xa"] = C.xa_for_fs(rng, body["fs"])
         else:
             c = C.glob_case(rng, o["comp"], o["bs"], rng.choice(gv))
             body = {k: c[k] for k in ("mode", "fs", "lines", "xa")}
